@@ -28,6 +28,36 @@ CLAIMS = {
         ref='6 C06',
         note='int() limited to 4300 digits (hypothesis ints_ok); Python str compared as UTF-8 bytes.',
         tech='Coq proof (token-list induction, symbolic evaluation of fixed offsets) + differential check of reader model and spec encoder + oracle through the real server'),
+    'C07': dict(
+        text='Coq theorems c07_lists / c07_item_data / c07_notify_user / c07_update / c07_item_notify / c07_failure / c07_void / c07_init_reply (Props/C07.v): for every datum of supported types '
+             '(texts of any content, lists / dicts / field lists of any length, all ints, every order and subset of modes, bytes values, None) the writer yields one CR/LF-free line which the reference ARI decoder '
+             '(Model/AriReply.v, specification side) parses back to exactly the supplied data, with a token count that is a function of the list lengths only; c07_*_unsupported: an unsupported type in any slot '
+             'yields an error and no line. Writers model vs the real write_* functions, Coq reference decoder vs an independent Python ARI decoder, and lines produced through the real servers are compared on every run.',
+        ref='6 C07',
+        note='float.__repr__/float() are CPython facts: a float is carried as its repr token (hypothesis ftok_ok: non-empty, separator-free) and float(token) == value is checked by the oracle across magnitudes; '
+             'base64 and quote_plus are modelled; a non-dict events map / a str where a list is expected are outside the property.',
+        tech='Coq proof (induction over data lists, split/join lemma, base64 and codec round trips) + differential check of writer model and of the spec decoder + oracle with an independent decoder'),
+    'C08': dict(
+        text='Coq theorems c08_library_classes / c08_unrelated_class / c08_user_subclass (Props/C08.v): for all 18 methods, all 10 library classes (pairs in scope), foreign classes and user subclasses, and ALL messages, '
+             'codes, user messages (None vs empty) and session ids, the error reply decodes (reference decoder) to the designated subtype letter iff the protocol table designates the class for the method, else generic, with the payload recovered exactly; '
+             'the letters and subclass relation are reflected from the live _EXCEPTIONS_MAP / class objects (Gen/Consts.v), the designated tuples are compared exhaustively on the 18 x 14 matrix on every run.',
+        ref='6 C08',
+        note='str(exception) taken as data; ConflictingSessionError outside notify_new_session is unspecified and excluded.',
+        tech='Coq proof (finite method x class matrix by vm_compute, composed with the codec round trip for unbounded payloads) + exhaustive-matrix differential check + oracle'),
+    'C09': dict(
+        text='Coq theorems c09_total (every decorated reader on EVERY token list: success or the protocol error naming the method), c09_truncated / c09_truncated_table_* (every truncation inside fixed fields or inside a table descriptor), '
+             'c09_wrong_marker(_tables), c09_non_integer(_tables), c09_unknown_mode, c09_unknown_platform (Props/C09.v) over the reference encoding of arbitrary well-formed requests. Reader model vs the real read_* functions on a malformed stream '
+             '(result and message compared), structural check that all 18 readers carry the decorator, and malformed-then-valid sequences through both real servers (no adapter call, no reply, one handler call / one FAL, service continues).',
+        ref='6 C09',
+        note='int() modelled on ASCII tokens up to 4300 digits; the server-level clause is decided by the oracle on the real servers and by the Dispatch model (C10), not by a separate theorem here.',
+        tech='Coq proof (case analysis over positions of symbolic token lists, induction over table lists) + differential check on a structured malformed stream + oracle through the real servers'),
+    'C11': dict(
+        text='Coq theorems c11_table (for EVERY announced version string, both kinds, every outcome: refusal without initialize / bare success / success announcing the agreed version, per the table of the property), c11_table_meta / c11_table_data '
+             '(the table spelled out), c11_params (local wins, reserved keys never from the Proxy), c11_listener, c11_error_typed, c11_close_flag, c11_hint_regardless (Props/C11.v). Init model vs the real servers '
+             '(initialize arguments, set_listener, reply line, close flag, hint handed over), the close flag observed by sending a real CLOSE request, and the Coq table vs the property text restated in Python.',
+        ref='6 C11',
+        note='the keepalive hint text is compared as handed over (its effect is C12); exception messages of refusals are modelled literally.',
+        tech='Coq proof (finite case split on five literal comparisons and one prefix test, dict lemmas) + differential check through the real servers + oracle'),
     'C12': dict(
         text='Coq theorems c12_no_hint / c12_nonpositive / c12_positive / c12_bound (Props/C12.v) prove the whole decision tree for every configured interval and every hint over exact rationals, '
              'with the constants reflected from the live Server class; the model (Model/Keepalive.v) is compared with the real servers on a complete boundary grid x both kinds x init outcomes '
